@@ -6,7 +6,9 @@ from vcheck import Case, hx, parse_vals, compare_lines, tokf
 PID = "C03"
 EPS = 2.0 ** -53
 TRACE_CAP = 520          # harness and driver print the full trace up to this many evaluations, else min/max
-RULE = ("one case = one call Integrate(f,a,b,eps,depth) (ops swap/epssign: two calls; op seq: two to eight calls of Integrate with explicit "
+RULE = ("one case = one call Integrate(f,a,b,eps,depth) (ops swap/epssign: two calls; op diag: one call with all its notices; op named: one call of the string overload "
+        "with an arbitrary method name, non-trivial when it is answered after more than 8 evaluations; ops i2d / i3d: one call of Integrate_2D / Integrate_3D with method "
+        "Adaptive-Simpson, non-trivial when some call of the nest splits (more than 64 / 512 evaluations) or warns; op seq: two to eight calls of Integrate with explicit "
         "or default depth, of the \"Adaptive-Simpson\" string overload and of Find_Epsilon made in one process, some of them abandoned by "
         "their integrand (calls of every kind, abandoned at any of their evaluations, followed by a request made in both orientations of its limits; "
         "calls of the other methods of the string overload in between, for the history only), with unrelated limits, the same limits, or limits that abut / share an end with those of the call before; op nest: one call whose integrand itself calls the integrator at every abscissa); non-trivial = the recursion "
@@ -61,7 +63,14 @@ LEVEL_TEXT = ("Theorems (Coq, over the reals, for all inputs): exactness on ever
               "k <= depth times, and the integrand is evaluated four times per panel plus once. A-priori size of the estimates over the reals (C03_leaf_value_bounded, C03_value_bounded): for an integrand bounded by M every estimate is at most |b-a| M, "
               "S2 - S at most 2 |b-a| M, every accepted value and the returned value at most (17/15) |b-a| M - the check uses these bounds to decide from the request whether an "
               "intermediate of the rule as written can reach the largest double; polynomials whose values, estimates and integral lie anywhere below that (ladder DBL_MAX * 2^-j) "
-              "are held to exactness, beyond it the library returns NaN for representable integrals (known finding K-C03-1). Still only tested, not "
+              "are held to exactness, beyond it the library returns NaN for representable integrals (known finding K-C03-1). Seventh pass (coq/C03_Model2.v, coverage/C03.md): everything Integrate writes is in the model and compared on every run "
+              "(op diag: swap notice of Check_Integration_Limits on stderr, non-convergence warning, 'Result is nan.' / 'Result is inf.' notices) - the report's value part IS integrate "
+              "in every arithmetic (C03_report_is_integrate), the swap notice is printed exactly for a > b and by exactly one of the two orientations (C03_swap_notice), the nan and inf "
+              "notices exclude each other (C03_diag_exclusive), and over the reals no inf notice is possible when (17/15)|b-a| max|f| <= DBL_MAX (C03_diag_real); the method guard of the "
+              "string overload (op named: an unrecognised name ends the process, C03_method_guard); Integrate_2D and Integrate_3D with method \"Adaptive-Simpson\" are model terms "
+              "(integrate_2d, integrate_3d: the string overload nested in itself; ops i2d, i3d, bit for bit): every point at which a 2D integrand is evaluated lies in the closed rectangle, "
+              "at most (2^22+4)^2 of them (C03_2d_points_inside_and_count, C03_2d_points_any_arithmetic), and Integrate_2D is exact on polynomials of degree <= 5 in each variable "
+              "(C03_2d_quintic_exact; evaluated on the library with a-priori slack as i2d:quintic-exact, i3d:quintic-exact). Still only tested, not "
               "proved: how far the rounded value of a polynomial's integral is from the exact one (the 'to rounding' part), and that the laws "
               "named as premises hold for the C++ double operations.")
 LEVEL_NOTE = ("Coq 8.16.1 kernel + Coquelicot; standard-library real-number axioms (listed in the evidence). Hand-written model tied by "
@@ -69,7 +78,11 @@ LEVEL_NOTE = ("Coq 8.16.1 kernel + Coquelicot; standard-library real-number axio
               "in `ASI(left) + ASI(right)` is unspecified: traces are compared as multisets. The error-bound theorem carries no analytic premise beyond differentiability: "
               "derivatives of orders 1..4 on an open interval containing the integration range and the factor-four bound on the fourth one.")
 TOL = (1e-11, 1e-300)
-TRUSTED = ["calls of the other methods of the string overload (Trapezoidal, Gauss-Legendre, Gauss-Kronrod, Gauss-Legendre_2) are made between the "
+TRUSTED = ["std::isnan is the nisnan operation of the number type, std::isinf(x) is modelled by its specification |x| > DBL_MAX; the notices are observed as the texts "
+           "'Sign will get swapped', 'Result is nan', 'Result is inf' in the output of the process; the numbers printed inside the warning (Round) are not compared",
+           "the method name of the string overload is compared by the driver (Adaptive-Simpson / one of the five other recognised names / anything else); the recognised "
+           "other methods are not called by op named unless the limits are equal",
+           "calls of the other methods of the string overload (Trapezoidal, Gauss-Legendre, Gauss-Kronrod, Gauss-Legendre_2) are made between the "
            "calls of a sequence for the history only; their answers are neither modelled nor compared (Tanh-Sinh is left out: boost aborts on intervals a few ulps wide)",
            "the integrand call-backs are prefix expressions evaluated by harness/common.hpp and ocaml/common.ml with the same libm",
            "the non-convergence warning is observed as the text 'did not converge' on the library's stdout; for an integrand that calls the "
@@ -870,6 +883,100 @@ def gen_nest(rng, budget):
     tags = ["nest", fam, "nest:" + ok + ik] + (["far"] if far else [])
     return Case(nest_line(ok, a, b, eps, depth, ik, ieps, idepth, fam, params, lo, hi, g, E), tuple(tags))
 
+# ---------------------------------------------------------------- seventh pass: diagnostics, method guard, Integrate_2D / Integrate_3D
+METHOD_NAMES = ["Adaptive-Simpson", "Adaptive-Simpson", "adaptive-simpson", "Adaptive_Simpson", "Adaptive-Simpson2", "Adaptive-Simpso", "Simpson",
+                "AdaptiveSimpson", "Vegas", "Monte-Carlo", "Miser", "gauss-legendre", "Gauss-Legendre_3", "Tanh-Sinh", "Trapezoidal", "Gauss-Kronrod",
+                "Gauss-Legendre", "Gauss-Legendre_2", "?", "0"]
+RECOGNISED_OTHER = ("Trapezoidal", "Gauss-Legendre", "Gauss-Kronrod", "Tanh-Sinh", "Gauss-Legendre_2")
+
+
+def gen_diag(rng, dmax):
+    """one call of Integrate with everything it writes (swap notice on stderr, non-convergence warning, nan / inf notices): integrands
+    that are not finite somewhere on the grid, polynomials at the upper end of the double range, ordinary ones; both orientations, equal limits"""
+    r = rng.random()
+    g = None
+    while g is None:
+        g = (gen_any(rng, dmax, far=rng.random() < 0.1, kinds=SING_KINDS) if r < 0.4 else gen_huge(rng, dmax) if r < 0.65
+             else gen_any(rng, dmax) if r < 0.85 else gen_quintic(rng, dmax))
+    a, b, eps, depth, fam, params, fx = g
+    depth = min(depth, 8)
+    if rng.random() < 0.35: a, b = b, a
+    if rng.random() < 0.06: b = a
+    return Case(fam_line("diag", a, b, eps, depth, "any", [], fx), ("diag",))
+
+
+def gen_named(rng, cap):
+    """the string overload with recognised and unrecognised method names (the guard: unrecognised -> the process is ended)"""
+    name = rng.choice(METHOD_NAMES)
+    a, b = rand_interval(rng)
+    if rng.random() < 0.3: a, b = b, a
+    if rng.random() < 0.15: b = a
+    cs = [rng.uniform(0.5, 3) for _ in range(rng.randint(1, 6))]; cs += [0.0] * (6 - len(cs))
+    fx = horner(cs, f"- x {C(min(a, b))}")
+    f, _ = parse_fexpr(fx.split(), 0)
+    if name == "Adaptive-Simpson" and call_count("M", f, a, b, 0.0, 0, cap) is None:
+        cs = cs[:3] + [0.0] * 3; fx = horner(cs, f"- x {C(min(a, b))}")
+    return Case(f"named {name} {hx(a)} {hx(b)} " + fam_text("qshift", [min(a, b)] + cs, fx), ("named", "named:" + ("AS" if name == "Adaptive-Simpson" else "other" if name in RECOGNISED_OTHER else "unknown")))
+
+
+def box_interval(rng):
+    w = 10 ** rng.uniform(-2, 0.5); x0 = rng.uniform(-2, 2)
+    if rng.random() < 0.3: x0 = abs(x0) + 0.1
+    a, b = x0, x0 + w
+    if rng.random() < 0.3: a, b = b, a
+    if rng.random() < 0.04: b = a
+    return a, b
+
+
+def nd_affordable(fg, lims, budget):
+    """Integrate_2D / Integrate_3D ("Adaptive-Simpson") on fg costs at most `budget` evaluations (Python floats, same operation order)"""
+    bud = [budget]
+    def level(k, args):
+        if k == len(lims): return fg(*args)
+        return py_call("M", (lambda t: level(k + 1, args + [t])), lims[k][0], lims[k][1], 0.0, 0, bud)
+    try:
+        v = level(0, [])
+    except (OverBudget, RecursionError):
+        return False
+    return v == v
+
+
+def gen_i2d(rng, budget):
+    """Integrate_2D(func,x1,x2,y1,y2,"Adaptive-Simpson"): q2 = polynomial sum c_ij x^i y^j, i, j <= 5 (exactness is evaluated),
+    any2 = other integrands (location, count shape, equal limits)"""
+    x1, x2 = box_interval(rng); y1, y2 = box_interval(rng)
+    if rng.random() < 0.65:
+        dx, dy = rng.randint(0, 5), rng.randint(0, 5)
+        pos = rng.random() < 0.5
+        cij = [[((1 if pos else rng.choice([-1, 1])) * 10 ** rng.uniform(-2, 2) if rng.random() < 0.7 or (i == dx and j == dy) else 0.0)
+                for j in range(dy + 1)] for i in range(dx + 1)]
+        g = horner_e([horner([cij[i][j] for i in range(dx + 1)], "x") for j in range(dy + 1)], "y")
+        fam, params = "q2", [float(dx), float(dy)] + [c for row in cij for c in row]
+    else:
+        k = rng.uniform(0.2, 3)
+        g = rng.choice([f"exp * {C(k)} * x y", f"sin + * {C(k)} x y", f"/ {C(1.0)} + {C(1.0)} + * x x * y y", f"abs - y x", f"cos * x y", "+ x y",
+                        f"sqrt + {C(9.0)} + x y", f"* x exp neg * y y", C(k), f"step - y x", f"/ {C(1.0)} - y x"])
+        fam, params = "any2", []
+    fg, _ = parse_fexpr2(g.split(), 0)
+    if not nd_affordable(lambda x, y: fg(x, y), [(x1, x2), (y1, y2)], budget): return None
+    return Case(f"i2d {hx(x1)} {hx(x2)} {hx(y1)} {hx(y2)} " + fam_text(fam, params, g), ("i2d", fam))
+
+
+def gen_i3d(rng, budget):
+    """Integrate_3D(func,x1,x2,y1,y2,z1,z2,"Adaptive-Simpson") on polynomials sum c_ijk x^i y^j z^k, i, j, k <= 3 (one of them up to 5)"""
+    lims = [box_interval(rng) for _ in range(3)]
+    d = [rng.randint(0, 3) for _ in range(3)]
+    if rng.random() < 0.5: d[rng.randint(0, 2)] = rng.randint(4, 5)
+    pos = rng.random() < 0.6
+    c = [[[((1 if pos else rng.choice([-1, 1])) * 10 ** rng.uniform(-1, 1) if rng.random() < 0.6 or (i, j, k) == tuple(d) else 0.0)
+           for k in range(d[2] + 1)] for j in range(d[1] + 1)] for i in range(d[0] + 1)]
+    g = horner_e([horner_e([horner([c[i][j][k] for i in range(d[0] + 1)], "x") for j in range(d[1] + 1)], "y") for k in range(d[2] + 1)], "z")
+    params = [float(v) for v in d] + [c[i][j][k] for i in range(d[0] + 1) for j in range(d[1] + 1) for k in range(d[2] + 1)]
+    def fg(x, y, z):
+        return sum(c[i][j][k] * x ** i * y ** j * z ** k for i in range(d[0] + 1) for j in range(d[1] + 1) for k in range(d[2] + 1))
+    if not nd_affordable(fg, lims, budget): return None
+    return Case("i3d " + " ".join(hx(v) for l in lims for v in l) + " " + fam_text("q3", params, g), ("i3d", "q3"))
+
 
 def generate(rng, tier):
     cs = []
@@ -941,6 +1048,15 @@ def generate(rng, tier):
     # calls whose limits are related to those of the call before (abutting pieces of a piecewise function, common limits, ...)
     for k in range(6000 if big else 400):
         cs.append(gen_chain(rng, dmax, 20000 if big else 3000))
+    # seventh pass: everything Integrate writes; the method guard of the string overload; Integrate_2D / Integrate_3D ("Adaptive-Simpson")
+    for k in range(6000 if big else 400): cs.append(gen_diag(rng, dmax))
+    for k in range(1500 if big else 120): cs.append(gen_named(rng, 20000 if big else 3000))
+    for k in range(3000 if big else 220):
+        c = gen_i2d(rng, 60000 if big else 12000)
+        if c is not None: cs.append(c)
+    for k in range(600 if big else 40):
+        c = gen_i3d(rng, 200000 if big else 40000)
+        if c is not None: cs.append(c)
     cs.append(Case(fam_line("int", -1.0, 2.0, 1e-6, 6, "any", [], "log x"), ("int", "nan")))
     cs.append(Case(fam_line("int", 0.0, 1.0, 1e-6, 6, "any", [], "/ c 0x1p+0 x"), ("int", "inf")))
     return cs
@@ -1226,9 +1342,85 @@ def value_preds(op, a, b, eps, dn, fam, params, v, warn, leaves):
     return out
 
 
+def pass7_predicates(c, io):
+    """ops diag, named, i2d, i3d"""
+    out = []
+    t = c.line.split(); op = t[0]; r = io.split()
+    if op == "named":
+        name = t[1]; a, b = tokf(t[2]), tokf(t[3])
+        unknown = name != "Adaptive-Simpson" and name not in RECOGNISED_OTHER
+        if unknown:
+            if not io.startswith("EXIT"): out.append(("named:guard", f"Integrate(f,a,b,{name!r}) answered {io[:60]!r}: an unrecognised method must end the process with a diagnostic"))
+            return out
+        if io.startswith("EXIT"): return [("named:exit", f"Integrate(f,a,b,{name!r}) terminated the process")]
+        if io.startswith("SKIP"): return out
+        if len(r) != 3: return [("named:output", "unexpected output shape")]
+        v = tokf(r[0]); n = int(r[2])
+        if a == b:
+            if n != 0 or v != 0.0: out.append(("named:equal-limits", f"equal limits returned {v!r} after {n} evaluations"))
+            return out
+        if n > 2 ** 22 + 4: out.append(("named:count", f"{n} evaluations exceed 2^22+4"))
+        if n % 4 != 0 or n < 8: out.append(("named:count-shape", f"{n} evaluations: not of the form 4 L + 4"))
+        fam, params, _ = parse_family(t, 4)
+        f, _ = parse_fexpr(t[4 + 2 + len(params):], 0)
+        eps = py_find_epsilon(f, min(a, b), max(a, b), 1e-9)
+        if eps == eps: out += value_preds("named", a, b, eps, DEFAULT_DEPTH, fam, params, v, r[1] == "1", max((n - 4) // 4, 1))
+        return out
+    if io.startswith("EXIT"): return [(op + ":exit", "the library terminated the process")]
+    if op == "diag":
+        a, b = tokf(t[1]), tokf(t[2]); depth = int(t[4])
+        if len(r) != 6: return [("diag:output", "unexpected output shape")]
+        v = tokf(r[0]); n = int(r[2]); notice, wnan, winf = (x == "1" for x in r[3:6])
+        if notice != (a > b): out.append(("diag:swap-notice", f"limits {a!r}, {b!r}: swap notice " + ("printed" if notice else "missing")))
+        if wnan != (v != v): out.append(("diag:nan-notice", f"result {v!r}: nan notice " + ("printed" if wnan else "missing")))
+        if winf != (abs(v) == math.inf): out.append(("diag:inf-notice", f"result {v!r}: inf notice " + ("printed" if winf else "missing")))
+        if a == b and (n != 0 or v != 0.0 or r[1] == "1"): out.append(("diag:equal-limits", f"equal limits returned {v!r} after {n} evaluations"))
+        if a != b and (n % 4 != 1 or n < 5 or n > 2 ** (max(depth, 0) + 2) + 1): out.append(("diag:count", f"{n} integrand evaluations at depth {depth}"))
+        return out
+    nd = 2 if op == "i2d" else 3
+    lims = [(tokf(t[1 + 2 * k]), tokf(t[2 + 2 * k])) for k in range(nd)]
+    if len(r) != (7 if nd == 2 else 3): return [(op + ":output", "unexpected output shape")]
+    v = tokf(r[0]); n = int(r[2])
+    fam, params, _ = parse_family(t, 1 + 2 * nd)
+    if n > (2 ** 22 + 4) ** nd: out.append((op + ":count", f"{n} evaluations of the integrand"))
+    # equal limits in the outermost variable: no evaluation at all; in an inner variable: the calls of that level return 0 without evaluating
+    if any(l[0] == l[1] for l in lims):
+        if n != 0 or v != 0.0: out.append((op + ":equal-limits", f"a pair of equal limits: returned {v!r} after {n} evaluations of the integrand"))
+        return out
+    if n % 4 != 0 or n < 8 ** nd: out.append((op + ":count-shape", f"{n} evaluations: the innermost calls make 4 L + 4 each, at least 8 per level"))
+    if nd == 2:
+        xmn, xmx, ymn, ymx = (tokf(x) for x in r[3:7])
+        if not (min(lims[0]) <= xmn and xmx <= max(lims[0]) and min(lims[1]) <= ymn and ymx <= max(lims[1])):
+            out.append(("i2d:location", f"integrand evaluated in [{xmn!r},{xmx!r}] x [{ymn!r},{ymx!r}], outside the rectangle of the limits"))
+    if fam in ("q2", "q3"):
+        d = [int(x) for x in params[:nd]]; cf = params[nd:]
+        A = [max(abs(l[0]), abs(l[1])) for l in lims]; W = [abs(l[1] - l[0]) for l in lims]
+        I = Fraction(0); gmax = 0.0; idx = 0
+        def mono(k, e):
+            lo, hi = Fraction(lims[k][0]), Fraction(lims[k][1])
+            return (hi ** (e + 1) - lo ** (e + 1)) / (e + 1)
+        import itertools
+        for e in itertools.product(*[range(x + 1) for x in d]):
+            cc = cf[idx]; idx += 1
+            term = Fraction(cc); g = abs(cc)
+            for k in range(nd): term *= mono(k, e[k]); g *= A[k] ** e[k]
+            I += term; gmax += g
+        vol = 1.0
+        for w in W: vol *= w
+        # a-priori rounding slack: per level (64 + 2*20) eps relative to 6 * volume * max|f| (function value and abscissae of a polynomial
+        # in the variables themselves, panel rule, Richardson, summation tree of depth <= 20); inherited coarse estimates: at most n/4 panels,
+        # each off by eps * |abscissa| * (cross-section) * max|f| / 15
+        slack = nd * (64 + 2 * DEFAULT_DEPTH) * 6 * EPS * vol * gmax + 1.2 * (n / 4) * EPS * sum(A[k] * vol / W[k] for k in range(nd)) * gmax / 15
+        fin = v == v and abs(v) != math.inf
+        if not fin or not (abs(Fraction(v) - I) <= Fraction(slack)):
+            out.append((op + ":quintic-exact", f"polynomial of degree <= 5 in each variable: returned {v!r}, exact integral {float(I)!r}, difference {float(abs(Fraction(v) - I)) if fin else v!r} > rounding slack {slack!r}"))
+    return out
+
+
 def predicates(c, io):
     out = []
     if io.startswith(("CRASH", "SANITIZER", "TIMEOUT", "HARNESSERR")): return out
+    if c.line.startswith(("diag ", "named ", "i2d ", "i3d ")): return pass7_predicates(c, io)
     if c.line.startswith("seq "): return seq_predicates(c, io)
     if c.line.startswith("nest "): return nest_predicates(c, io)
     op, a, b, eps, depth, fam, params, fx = parse_case(c.line)
@@ -1326,6 +1518,10 @@ def seq_predicates(c, io):
 
 def nontrivial(c, io):
     op = c.line.split()[0]
+    if op in ("diag", "named", "i2d", "i3d"):
+        r = io.split()
+        if io.startswith(("EXIT", "CRASH", "SKIP")) or len(r) < 3: return False
+        return r[1] == "1" or int(r[2]) > {"diag": 5, "named": 8, "i2d": 64, "i3d": 512}[op]
     if op == "findeps" or io.startswith(("EXIT", "CRASH")): return False
     calls = _split(io, op)
     if not calls: return False
